@@ -10,7 +10,7 @@ Creds == { [kind |-> "absent", user |-> "", pwd |-> "", shape |-> 0] }
          \cup { [kind |-> "malformed", user |-> "", pwd |-> "", shape |-> s] : s \in 1..5 }
          \cup { [kind |-> "basic", user |-> u, pwd |-> p, shape |-> 0] : u \in Users, p \in Pwds }
 Methods9 == {"GET", "POST", "PUT", "PATCH", "DELETE", "HEAD", "OPTIONS", "CONNECT", "TRACE"}
-OVals == {"", "put", "PUT", "Put", "patch", "delete", "get", "post", "bogus"}
+OVals == {"", "put", "PUT", "Put", "patch", "delete", "get", "post", "bogus", "PAT", "DEL", "T", "PUT,PATCH", ","}   \* (fragments and lists of the three names are not names)
 Wrappers == {"w1", "w2", "w3", "w4"}
 WrapLists == UNION { { s \in [1..n -> Wrappers] : \A i, j \in 1..n : i # j => s[i] # s[j] } : n \in 1..4 }
 
